@@ -233,3 +233,13 @@ def _bitnonneg(t, ctx):
 
 for _nm in ('bor', 'bxor', 'shl', 'shr'):
     register(_nm, _bitnonneg, 'bit operation on non-negative integers is non-negative')
+
+
+def _f32(t, ctx):
+    x = t.args[1]
+    whole = tm.eq(tm.to_real(tm.to_int_floor(x)), x)
+    small = tm.and_(tm.le(x, tm.mk_real(1 << 24)), tm.ge(x, tm.mk_real(-(1 << 24))))
+    return [tm.implies(tm.and_(whole, small), tm.eq(t, x))]
+
+
+register('f32', _f32, 'f32(x) = x for whole numbers |x| <= 2^24 (rounding of other values to single precision is left uninterpreted)')
